@@ -3,7 +3,7 @@
 P=$1; PATCH=$2; TIER=${3:-quick}
 cd /repo || exit 2
 if ! git diff --quiet; then echo "/repo not clean"; exit 2; fi
-git apply "$PATCH" || { echo "patch does not apply"; exit 2; }
+git apply "$PATCH" 2>/dev/null || git apply -C1 "$PATCH" 2>/dev/null || patch -p1 -s --fuzz=3 < "$PATCH" || { echo "patch does not apply"; git checkout -- .; exit 2; }
 cd /verif && bin/vcheck $P --tier $TIER 2>&1 | grep -v "^KNOWN-FINDING" | tail -4
 RC=${PIPESTATUS[0]}
 git -C /repo checkout -- . 
